@@ -210,6 +210,11 @@ class URLInfo(object):
         info.username = percent_decode(username, encoding=encoding)
         info.password = percent_decode(password, encoding=encoding)
 
+        # Reject userinfo that cannot be serialized later by the url
+        # property (lone surrogates), like the path and query already are.
+        normalize_username(info.username)
+        normalize_password(info.password)
+
         info.host = host
         info.hostname = hostname
         info.port = port or RELATIVE_SCHEME_DEFAULT_PORTS[scheme]
